@@ -6,7 +6,7 @@
 From MJ Require Import Common.Base C16.Model C16.Spec C16.Proofs.
 
 (* Serialising a serde value of a Rust type into a template value and deserialising it at the same
-   type gives the value back: every type built from bool, integers up to 64 bits, floats, char,
+   type gives the value back: every type built from bool, integers of 8 to 128 bits, floats, char,
    String, bytes, Option of a payload that cannot itself be none, unit, unit/newtype/tuple structs,
    sequences, tuples, maps, structs and enums with unit, newtype, tuple and struct variants, at any
    nesting depth and any size. *)
@@ -14,12 +14,11 @@ Theorem roundtrip : forall t v,
   wf_sty t = true -> roundtrippable t = true -> has_type t v = true -> de t (ser v) = Some v.
 Proof. exact roundtrip_proof. Qed.
 
-(* The exclusions are the shapes serde cannot carry: Some(None), Some(()) come back as None;
-   128-bit integers are refused by the deserializer. *)
+(* The exclusions are the shapes serde cannot carry: Some(None), Some(()) come back as None.
+   (128-bit integers used to be refused by the deserializer; since c8ac377 they are in the domain.) *)
 Theorem roundtrip_domain_is_tight :
   de (TOption (TOption (TInt 64))) (ser (SSome SNone)) = Some SNone /\
-  de (TOption TUnit) (ser (SSome SUnit)) = Some SNone /\
-  de (TInt 128) (ser (SInt 128 5)) = None.
+  de (TOption TUnit) (ser (SSome SUnit)) = Some SNone.
 Proof. exact option_option_not_carried. Qed.
 
 (* A template value embedded in serialised data (safe string, undefined, dynamic object, anything)
@@ -147,6 +146,12 @@ Example history_witness :
   fst (convert (NStruct (NCons (NEmb safe) (NCons (NEmb VUndef) NNil))) st1)
     = ROk (VMap [(field_key 0, safe); (field_key 1, VUndef)]).
 Proof. vm_compute. repeat split; try reflexivity. discriminate. Qed.
+
+Example roundtrip_witness_128 :
+  let t := TStruct [([97], TInt 128); ([98], TUInt 128)] in
+  let v := SStruct [([97], SInt 128 (- 2 ^ 127)); ([98], SUInt 128 (2 ^ 128 - 1))] in
+  wf_sty t = true /\ roundtrippable t = true /\ has_type t v = true /\ de t (ser v) = Some v.
+Proof. vm_compute. repeat split. Qed.
 
 Example postprocess_witness :
   json_tokens [91; 34; 60; 47; 39; 92; 34; 34; 44; 49; 93]
